@@ -2,7 +2,7 @@
    source facts ([gen_w_step], [reach_wo]). *)
 From Coq Require Import List NArith Bool Arith Lia.
 Import ListNotations.
-From FV Require Import Qs.QsTypes Qs.QsModel Qs.QsGenOk Qs.QsWoProofs.
+From FV Require Import Qs.QsTypes Qs.QsModel Qs.QsGenOk Qs.QsWoProofs Qs.QsWoLive.
 Local Open Scope N_scope.
 
 Lemma gen_w_step_eq : gen_w_step = wstep.
@@ -84,4 +84,42 @@ Lemma gen_outcomes s tr t c :
   | OutOfFuel => c = CQBarrier
   end.
 Proof. intros Hr Ht. rewrite gen_w_step_eq. apply (wo_outcomes U s t c ND HB Ht (gen_inv s tr Hr)). Qed.
+(* liveness: the sequence of calls of the generated instance *)
+Fixpoint gen_wrun (l : list (tid * call)) (s : wstate) : option wstate :=
+  match l with
+  | [] => Some s
+  | (t, c) :: r => match gen_w_step t c s with Ok (s', _) => gen_wrun r s' | _ => None end
+  end.
+
+Fixpoint gen_rounds (ls : list (list (tid * call))) (s : wstate) : Prop :=
+  match ls with
+  | [] => True
+  | l :: r =>
+      (exists x, onl s x = true) /\ (forall x, onl s x = true -> has_qop x l) /\
+      (forall t c, In (t, c) l -> In t U) /\
+      match gen_wrun l s with Some s1 => gen_rounds r s1 | None => False end
+  end.
+
+Lemma gen_wrun_eq : forall l s, gen_wrun l s = wrun l s.
+Proof. induction l as [|[t c] l IH]; intros s; cbn; [reflexivity|]. rewrite gen_w_step_eq. destruct (wstep t c s) as [[? ?]| | | |]; auto. Qed.
+
+Lemma gen_rounds_eq : forall ls s, gen_rounds ls s <-> rounds U ls s.
+Proof.
+  induction ls as [|l r IH]; intros s; cbn; [tauto|]. rewrite gen_wrun_eq.
+  destruct (wrun l s) as [s1|]; [rewrite IH|]; tauto.
+Qed.
+
+Lemma gen_liveness s tr ls s' tg :
+  reach_wo U s tr -> gen_rounds ls s -> gen_wrun (concat ls) s = Some s' ->
+  tg <= desired (wd s) -> tg <= ctr (wd s) + N.of_nat (length ls) -> tg <= ctr (wd s').
+Proof.
+  intros Hr HR H. rewrite gen_wrun_eq in H. apply gen_rounds_eq in HR.
+  apply (rounds_progress U ND HB ls s s' tg (gen_inv s tr Hr) HR H).
+Qed.
+
+Lemma gen_run_fires s tr t n :
+  reach_wo U s tr -> In n (pending (wa s t)) -> wtarget s n <= ctr (wd s) ->
+  exists s' evs, gen_w_step t CRun s = Ok (s', evs) /\ In (WCb n t) evs.
+Proof. intros Hr. rewrite gen_w_step_eq. apply (run_fires U s t n (gen_inv s tr Hr)). Qed.
+
 End Gen.
